@@ -40,6 +40,10 @@ type World struct {
 	recvInv   map[string][]*Clause
 	commonPost map[string][]*Clause
 	typeInv   map[string][]*Clause
+	nodeInv   map[string][]*Clause // invariants of AST node types (checked at boxing, axioms over Dyn)
+	totalMethods map[string]bool
+	nodeAxioms   []nodeAxiom
+	nodeAxiomsDone bool
 	midNames  map[string]bool // obligations solved with the middle time limit (known findings, quick tier)
 	midTmo    int
 	stopAfter int // quick tier: stop solving after this many ledger obligations have failed
@@ -699,6 +703,9 @@ func (w *World) paramInvsFor(fn *ssa.Function, i int) []*Clause {
 		return nil
 	}
 	out := w.typeInvFor(fn.Params[i].Type())
+	if n, ok := fn.Params[i].Type().(*types.Named); ok && len(w.nodeInv[typeKey(n)]) > 0 {
+		out = append(append([]*Clause{}, out...), w.nodeInv[typeKey(n)]...)
+	}
 	if i == 0 && fn.Signature.Recv() != nil {
 		if n, ok := fn.Signature.Recv().Type().(*types.Named); ok {
 			out = append(append([]*Clause{}, out...), w.recvInv[typeKey(n)]...)
